@@ -22,7 +22,7 @@ type Case struct {
 
 var profiles = []gen.Profile{
 	{MinSteps: 3, MaxSteps: 22, Limits: []int{32, 2}, PNote: 25, PGate: 70, PInvalid: 12, PUnknown: 10, PBatch: 45, MaxBatch: 5, PBurst: 60, Builtins: true, Pins: true,
-		Outcomes: []string{"ok", "ok", "err:-32000", "bad", "badraw"}, Chans: []string{"direct", "pipe"}},
+		Outcomes: []string{"ok", "ok", "err:-32000", "bad", "badraw", "baderr"}, Chans: []string{"direct", "pipe"}},
 	{MinSteps: 4, MaxSteps: 24, Limits: []int{32, 2}, IDPool: []string{"1", "2", `"1"`, "3"}, PNote: 12, PGate: 75, PInvalid: 5, PUnknown: 20, PBatch: 30, MaxBatch: 3,
 		PCancel: 15, PBurst: 55, PObey: 40, Builtins: true, Pins: true, Outcomes: []string{"ok", "err:-32000", "ctxerr", "badraw"}, Chans: []string{"direct", "pipe"}},
 }
